@@ -13,7 +13,7 @@ RULE = ("byte strings: the repository's fixture files and generated show files w
         "damaged blocks, empty blocks, both versions, with/without checksum), every prefix of the small ones, single-byte edits with "
         "values {00,01,7f,80,ff,+1,-1} (checksum refreshed for most so that the edit reaches the block parser), multi-byte random and "
         "structural mutations, random strings; each loaded as trajectory, light program, yaw control and RTH plan through a descriptor "
-        "and from memory; compared: success class, block bytes, the whole query battery bit-for-bit, the battery again after clear. "
+        "and from memory (a fresh exact-size buffer, then one reused working buffer that held other bytes of the same length); compared: success class, block bytes, the whole query battery bit-for-bit, the battery again after clear. "
         "Non-trivial: a file in which the block of the kind is present.")
 HARNESS_ENV = None
 
